@@ -420,6 +420,211 @@ def c_converter_circuit(inp):
     return None
 
 
+# ------------------------------------------------------------------ argument frames, repeated use, input construction variants
+def _fp(x):
+    """value of an argument object as far as a caller can observe it (dtype and bytes of arrays; node order, adjacency order and
+    attribute dictionaries of networkx graphs; every field of a tableau)"""
+    if isinstance(x, np.ndarray):
+        return ("ndarray", x.dtype.str, x.shape, x.tobytes())
+    if isinstance(x, nx.Graph):
+        return ("nx", type(x).__name__, [(repr(u), _fp(d)) for u, d in x.nodes(data=True)],
+                [(repr(u), [(repr(v), _fp(d)) for v, d in nb.items()]) for u, nb in x.adj.items()], _fp(dict(x.graph)))
+    if isinstance(x, Graph):
+        return ("Graph", _fp(x.data), sorted((k, _fp(v)) for k, v in vars(x).items() if k != "_data"))
+    if isinstance(x, (StabilizerTableau, CliffordTableau)):
+        return (type(x).__name__, sorted((k, _fp(v)) for k, v in vars(x).items()))
+    if isinstance(x, dict):
+        return ("dict", [(repr(k), _fp(v)) for k, v in x.items()])
+    if isinstance(x, (list, tuple)):
+        return (type(x).__name__, [_fp(v) for v in x])
+    return repr(x)
+
+
+def _row_product(a, b, n):
+    """product of two commuting signed Pauli rows (x, z, r), by matrices"""
+    x = tuple((p + q) % 2 for p, q in zip(a[0], b[0]))
+    z = tuple((p + q) % 2 for p, q in zip(a[1], b[1]))
+    M = R.pauli(a[0], a[1], a[2]) @ R.pauli(b[0], b[1], b[2])
+    for r in (0, 1):
+        if np.allclose(M, R.pauli(x, z, r)):
+            return (x, z, r)
+    raise AssertionError("rows do not commute")
+
+
+def _mixed_rows(A):
+    """another generating set of the stabilizer group of |G_A>: K_0 K_1, K_1 K_2, ..., K_{n-2} K_{n-1}, -(-K_{n-1})  i.e. row i
+    multiplied by row i+1 (signs tracked by matrices)"""
+    n = len(A)
+    _, stab = L.graph_rows(A)
+    out = [_row_product(stab[i], stab[i + 1], n) for i in range(n - 1)] + [stab[n - 1]]
+    return out
+
+
+def _mk(form, A):
+    """the same graph (state) built in different ways"""
+    A = np.array(A, dtype=int)
+    n = len(A)
+    if form == "int":
+        return A.copy()
+    if form == "float":
+        return A.astype(float)
+    if form == "int32":
+        return A.astype(np.int32)
+    if form == "nx_w":  # weight attributes (nx.from_numpy_array)
+        return nx.from_numpy_array(A.copy())
+    if form == "nx_plain":  # no edge attributes (nx.Graph + add_edges_from, like nx.path_graph)
+        g = nx.Graph()
+        g.add_nodes_from(range(n))
+        g.add_edges_from((i, j) for i in range(n) for j in range(i + 1, n) if A[i, j])
+        return g
+    if form in ("Graph_w", "Graph_plain"):
+        return Graph(_mk("nx_w" if form == "Graph_w" else "nx_plain", A))
+    if form in ("stabilizer", "clifford"):
+        dest, stab = L.graph_rows(A)
+        return _tableau(form, dest, stab)
+    if form == "stabilizer_mixed":
+        return _tableau("stabilizer", None, _mixed_rows(A))
+    raise ValueError(form)
+
+
+def _current_adj(x, n):
+    """adjacency matrix an argument object denotes NOW (read after the call: a returned sequence must work on the object the caller holds)"""
+    if isinstance(x, np.ndarray):
+        return np.array(x).astype(int)
+    if isinstance(x, Graph):
+        x = x.data
+    return _nx_adj(x, n)
+
+
+def _seq_ok(x1, n, B, seq, what):
+    if not isinstance(seq, list) or any(not (isinstance(v, (int, np.integer)) and 0 <= int(v) < n) for v in seq):
+        return f"{what}: sequence is not a list of vertices: {seq!r}"
+    C = L.apply_lc_sequence(_current_adj(x1, n), seq)
+    if not np.array_equal(C, B):
+        return f"{what}: sequence {[int(v) for v in seq]} replayed on the caller's first graph gives {C.tolist()}, not graph 2"
+    return None
+
+
+def _entry_call(entry, x1, x2, A, B, truth):
+    """one call of an LC entry point on the argument OBJECTS x1, x2 (denoting the graphs A, B); the result is judged against the oracle"""
+    n = len(A)
+    if entry in ("is_lc_equivalent.det", "is_lc_equivalent.rand", "Graph.lc_equivalent", "lc_graph_operations"):
+        if entry == "Graph.lc_equivalent":
+            out = x1.lc_equivalent(x2)
+        else:
+            out = lce.is_lc_equivalent(x1, x2, mode="random" if entry.endswith("rand") else "deterministic")
+        if not (isinstance(out, tuple) and len(out) == 2):
+            return f"return value is not a pair: {out!r}"
+        ok, sol = out
+        if bool(ok) != truth:
+            return f"false 'no', answer {ok!r}" if truth else f"false 'yes', answer {ok!r}"
+        if not truth:
+            return None if sol is None else f"answer False but a solution was returned: {sol!r}"
+        r = _check_solution(A, B, sol)
+        if r or entry != "lc_graph_operations":
+            return r
+        fs = _fp(sol)
+        names = lce.local_clifford_ops(sol)
+        if _fp(sol) != fs:
+            return "local_clifford_ops modified the solution it was given"
+        if not (isinstance(names, list) and len(names) == n):
+            return f"local_clifford_ops: expected {n} operator names, got {names!r}"
+        try:
+            with time_limit(5):
+                seq = lce.lc_graph_operations(x1, sol)
+        except _Timeout:
+            return "lc_graph_operations did not terminate within 5 CPU-seconds"
+        if _fp(sol) != fs:
+            return "lc_graph_operations modified the solution it was given"
+        return _seq_ok(x1, n, B, seq, "lc_graph_operations")
+    if entry in ("find_lc_operations.det", "find_lc_operations.rand"):
+        try:
+            with time_limit(5):
+                seq = lce.find_lc_operations(x1, x2, mode="random" if entry.endswith("rand") else "deterministic")
+        except _Timeout:
+            return "find_lc_operations did not terminate within 5 CPU-seconds"
+        except ValueError as e:
+            return f"false 'no': ValueError({e})" if truth else None
+        if not truth:
+            return f"false 'yes': returned {seq!r}"
+        return _seq_ok(x1, n, B, seq, "find_lc_operations")
+    if entry in ("lc_check", "lc_check.novalidate"):
+        out = slc.lc_check(x1, x2, validate=(entry == "lc_check"))
+        if not (isinstance(out, tuple) and len(out) == 2):
+            return f"return value is not a pair: {out!r}"
+        ok, gates = out
+        if bool(ok) != truth:
+            return f"false 'no', lc_check answered {ok!r}" if truth else f"false 'yes', lc_check answered {ok!r} with {gates!r}"
+        return _check_gate_list(gates, n, R.graph_state(A), R.graph_state(B), "lc_check") if truth else None
+    if entry == "converter_gate_list":
+        try:
+            gates = slc.converter_gate_list(x1, x2)
+        except AssertionError as e:
+            return f"false 'no': AssertionError({e})" if truth else None
+        if not truth:
+            return f"false 'yes': returned {gates!r}"
+        return _check_gate_list(gates, n, R.graph_state(A), R.graph_state(B), "converter_gate_list")
+    if entry == "state_converter_circuit":
+        try:
+            circ = slc.state_converter_circuit(x1, x2, validate=True)
+        except AssertionError as e:
+            return f"false 'no': AssertionError({e})" if truth else None
+        if not truth:
+            return "false 'yes': returned a circuit"
+        ops = R.graphiq_ops(circ)
+        if circ.n_photons != n or circ.n_emitters != 0 or any(op[0] not in ("g", "w") for op in ops):
+            return f"circuit on {circ.n_photons} photons / {circ.n_emitters} emitters with operations {ops}"
+        v, _, _ = R.run_ops(n, ops, v0=R.graph_state(A))
+        if not R.same_state(v, R.graph_state(B)):
+            return f"circuit {ops} does not map |G1> onto |G2>"
+        return None
+    raise ValueError(entry)
+
+
+ENTRY_FORMS = {
+    "is_lc_equivalent.det": ("int", "float", "int32"),
+    "is_lc_equivalent.rand": ("int", "float"),
+    "lc_graph_operations": ("int", "float", "int32"),
+    "find_lc_operations.det": ("int", "float", "int32"),
+    "find_lc_operations.rand": ("int", "float"),
+    "Graph.lc_equivalent": ("Graph_w", "Graph_plain"),
+    "lc_check": ("int", "float", "nx_w", "nx_plain", "stabilizer", "clifford", "stabilizer_mixed"),
+    "lc_check.novalidate": ("int", "nx_plain", "stabilizer_mixed"),
+    "converter_gate_list": ("nx_w", "nx_plain"),
+    "state_converter_circuit": ("int", "nx_plain", "stabilizer", "clifford"),
+}
+
+
+@S.item("lc_entry_points.frames_and_reuse",
+        site=f"{_LCE}:is_lc_equivalent, lc_graph_operations, local_clifford_ops, find_lc_operations ; {_GST}:Graph.lc_equivalent ; "
+             f"{_SLC}:lc_check, converter_gate_list, state_converter_circuit",
+        bound="graph 1 CONNECTED (cannot meet KF-C09-1). Fixed list: every same-orbit ordered pair with graph 1 connected on 2..4 vertices (387) + "
+              "for every connected graph on 2..4 vertices 2 graphs outside its orbit; seeded: 40 (thorough 400) pairs on 5 and 20 (200) on 6 vertices. "
+              "x every entry point x every construction of the arguments (int64 / float64 / int32 arrays, networkx graphs with weight attributes "
+              "(from_numpy_array) / without edge attributes, Graph objects of both, stabilizer / Clifford tableaux, stabilizer tableau in another "
+              "generating set). Per case: call(x1,x2) twice with the SAME argument objects, then call(x2,x1); every answer judged by the oracle, returned "
+              "sequences replayed on the object the caller still holds; after every call both arguments (and the solution given to "
+              "lc_graph_operations / local_clifford_ops) bit-for-bit unchanged",
+        clause=CL_ANSWER + "; " + CL_GATES + "; " + CL_SEQ + " - for every way the graphs are given, on repeated use of the same argument "
+               "objects, and without modifying the arguments")
+def c_frames(inp):
+    entry, form, a, b = inp
+    A, B = _adj(a), _adj(b)
+    truth = L.same_orbit(A, B)
+    x1, x2 = _mk(form, A), _mk(form, B)
+    f1, f2 = _fp(x1), _fp(x2)
+    for k, (p, q, P, Q) in enumerate(((x1, x2, A, B), (x1, x2, A, B), (x2, x1, B, A)), 1):
+        what = f"call #{k} ({'x1,x2' if k < 3 else 'x2,x1'}; arguments given as {form})"
+        r = _entry_call(entry, p, q, P, Q, truth)
+        g1, g2 = _fp(x1), _fp(x2)
+        if g1 != f1 or g2 != f2:
+            which = "first" if (g1 != f1) == (k < 3) else "second"
+            return f"{what}: the {which} argument was modified by the call" + (f" (and: {r})" if r else "")
+        if r:
+            return f"{what}: {r}"
+    return None
+
+
 # ------------------------------------------------------------------ local complementation
 @S.item("local_comp_graph.semantics", site=f"{_LCE}:local_comp_graph",
         bound="ALL labelled graphs n<=5 (1099) x every vertex", exhaustive=True, clause=CL_LC)
